@@ -36,9 +36,38 @@ def fsm_table(model: Model, folder: Folder, run: Run) -> dict[str, set[str]]:
     if not isinstance(t, ast.Dict):
         run.cannot('FSM.transition is not a dict literal')
         return out
+    # the enumeration nested in FSM: list(STATE) / tuple(STATE) / [*STATE] is every member, in definition order
+    enums: dict[str, list[str]] = {}
+    for st in fsm.node.body:
+        if isinstance(st, ast.ClassDef):
+            enums[st.name] = [tg.id for a in st.body if isinstance(a, ast.Assign) for tg in a.targets if isinstance(tg, ast.Name)]
+            enums[st.name] += [a.target.id for a in st.body if isinstance(a, ast.AnnAssign) and a.value is not None and isinstance(a.target, ast.Name)]
+
+    def members(v: ast.expr) -> set[str] | None:
+        if isinstance(v, (ast.List, ast.Tuple, ast.Set)):
+            got: set[str] = set()
+            for e in v.elts:
+                if isinstance(e, ast.Starred):
+                    sub = members(ast.Call(func=ast.Name(id='list', ctx=ast.Load()), args=[e.value], keywords=[]))
+                    if sub is None:
+                        return None
+                    got |= sub
+                elif isinstance(e, (ast.Name, ast.Attribute)):
+                    got.add((dotted(e) or '?').rsplit('.', 1)[-1])
+                else:
+                    return None
+            return got
+        if isinstance(v, ast.Call) and isinstance(v.func, ast.Name) and v.func.id in ('list', 'tuple', 'set', 'frozenset', 'sorted') and len(v.args) == 1 and not v.keywords:
+            d = (dotted(v.args[0]) or '').rsplit('.', 1)[-1]
+            if d in enums and enums[d]:
+                return set(enums[d])
+            return members(v.args[0])
+        return None
+
     for k, v in zip(t.keys, t.values):
-        if isinstance(k, ast.Name) and isinstance(v, (ast.List, ast.Tuple, ast.Set)):
-            out[k.id] = {e.id for e in v.elts if isinstance(e, ast.Name)}
+        got = members(v) if isinstance(k, (ast.Name, ast.Attribute)) else None
+        if got is not None and all(g in STATES for g in got):
+            out[(dotted(k) or '?').rsplit('.', 1)[-1]] = got
         else:
             run.cannot('FSM.transition entry not understood: %s' % norm(k))
     return out
@@ -503,6 +532,32 @@ STOP_EXEMPT = {
 }
 
 
+def _state_set(model: Model, fi: FuncInfo, e: ast.expr, depth: int = 0) -> set[str] | None:
+    """The FSM states a container expression denotes: a literal of FSM.X names, or a class / module constant bound to one."""
+    if depth > 4:
+        return None
+    if isinstance(e, (ast.Tuple, ast.List, ast.Set)):
+        out = set()
+        for x in e.elts:
+            last = (dotted(x) or '?').rsplit('.', 1)[-1]
+            if last not in STATES:
+                return None
+            out.add(last)
+        return out
+    if isinstance(e, ast.Call) and isinstance(e.func, ast.Name) and e.func.id in ('tuple', 'list', 'set', 'frozenset') and len(e.args) == 1:
+        return _state_set(model, fi, e.args[0], depth + 1)
+    d = dotted(e) or ''
+    if isinstance(e, ast.Attribute) and fi.cls is not None and d.count('.') == 1 and d.split('.')[0] in ('self', 'cls', fi.cls.name):
+        for cq in fi.cls.mro or [fi.cls.qualname]:
+            ci = model.classes.get(cq)
+            if ci is not None and e.attr in ci.assigns:
+                return _state_set(model, fi, ci.assigns[e.attr], depth + 1)
+        return None
+    if isinstance(e, ast.Name) and e.id in fi.module.assigns:
+        return _state_set(model, fi, fi.module.assigns[e.id], depth + 1)
+    return None
+
+
 def _r5_updown(model: Model, run: Run) -> None:
     ups = []
     downs = []
@@ -515,13 +570,29 @@ def _r5_updown(model: Model, run: Run) -> None:
                     downs.append((fi, n))
     run.check(bool(ups) and all(f.qualname == PEER + '._main' for f, _ in ups), PEER, 'processes.up sites: %s' % [short(f.qualname) for f, _ in ups], model.cls(PEER).loc(), 'up must be emitted only by _main')
     run.check(bool(downs) and all(f.qualname == PEER + '._close' for f, _ in downs), PEER, 'processes.down sites: %s' % [short(f.qualname) for f, _ in downs], model.cls(PEER).loc(), 'down must be emitted only by _close')
+    # one session, one up: _main runs once per established session (its loop serves the whole session), so a second call
+    # site, or one inside a loop, announces the same session twice without a down in between
+    main_ups = [(f, n) for f, n in ups if f.qualname == PEER + '._main']
+    if main_ups:
+        f0 = main_ups[0][0]
+        par = parent_map(f0.node)
+        looped = []
+        for f, n in main_ups:
+            x = n
+            while id(x) in par:
+                x = par[id(x)]
+                if isinstance(x, (ast.While, ast.For, ast.AsyncFor)):
+                    looped.append(n)
+                    break
+        bad = looped[0] if looped else (main_ups[1][1] if len(main_ups) > 1 else None)
+        run.check(bad is None, f0.qualname, 'processes.up is emitted once per session (%d site(s), %d inside a loop)' % (len(main_ups), len(looped)), f0.loc(bad) if bad is not None else f0.loc(main_ups[0][1]), 'an "up" emitted again while the session stays established (on a reload, on every iteration) is not preceded by a "down": helpers see up, up, down')
     # the down guard
     if downs:
         from ..flow import flat_guards
 
         f, n = downs[0]
         g = flat_guards(f.node, n)
-        ok = any(isinstance(t, ast.Compare) and isinstance(t.ops[0], ast.NotIn) and 'FSM.IDLE' in norm(t) and 'FSM.ACTIVE' in norm(t) and pol for t, pol in g)
+        ok = any(isinstance(t, ast.Compare) and isinstance(t.ops[0], ast.NotIn) and _state_set(model, f, t.comparators[0]) == {'IDLE', 'ACTIVE'} and pol for t, pol in g)
         run.check(ok, f.qualname, 'down guarded by fsm not in (IDLE, ACTIVE)', f.loc(n), 'down must be sent exactly when a session was beyond ACTIVE')
         # and precedes change(IDLE) in _close
         chg = [c for c in walk_no_nested(f.node) if isinstance(c, ast.Call) and change_target(model, f, c) == 'IDLE']
